@@ -1332,7 +1332,7 @@ func c16RunGeneratorHistory(rng *rand.Rand, p c16GParams) (r *c16GRun, fp string
 		switch {
 		case x < 45: // RETIRE_CONNECTION_ID
 			var seq uint64
-			kind := rng.IntN(10)
+			kind := rng.IntN(50)
 			var sentWith protocol.ConnectionID
 			var seqs []uint64
 			for s := range r.unretired {
@@ -1340,10 +1340,10 @@ func c16RunGeneratorHistory(rng *rand.Rand, p c16GParams) (r *c16GRun, fp string
 			}
 			sort.Slice(seqs, func(i, j int) bool { return seqs[i] < seqs[j] })
 			switch {
-			case kind < 6 && len(seqs) > 0: // valid
+			case kind < 38 && len(seqs) > 0: // valid
 				seq = seqs[rng.IntN(len(seqs))]
 				sentWith = pickLive(r.issued[seq])
-			case kind < 8: // duplicate / already retired
+			case kind < 48: // duplicate / already retired
 				var old []uint64
 				for s := range r.issued {
 					if !r.unretired[s] {
@@ -1356,7 +1356,7 @@ func c16RunGeneratorHistory(rng *rand.Rand, p c16GParams) (r *c16GRun, fp string
 				sort.Slice(old, func(i, j int) bool { return old[i] < old[j] })
 				seq = old[rng.IntN(len(old))]
 				sentWith = pickLive(protocol.ConnectionID{})
-			case kind < 9 && len(seqs) > 0: // for the ID the packet was sent to
+			case kind < 49 && len(seqs) > 0: // for the ID the packet was sent to
 				seq = seqs[rng.IntN(len(seqs))]
 				sentWith = r.issued[seq]
 			default: // never issued
